@@ -96,7 +96,9 @@ impl Drop for Output {
         let _ = match self {
             Output::StdOut => Ok(()),
             Output::Named(target) => std::fs::remove_file(target),
-            Output::InPlace(target) => std::fs::remove_file(target),
+            // The file read in place is the input: either the user's own file, which must not be
+            // removed, or the temporary copy, which is removed when `Input::Copied` is dropped.
+            Output::InPlace(_) => Ok(()),
         };
     }
 }
